@@ -10,8 +10,13 @@ on real image data.
   pxs.unmatte                          -> ok  <unmattePil x a, hex bytes, index x·256 + a>  <unmatte8 x a, the same layout>
   pxs.unmattenp <c bits,…> <a bits,…>  -> ok  <unmatteNp c a bits, …>
   pxs.conv     <src> <dst> <w> <h> <band hex;…>   -> ok <band hex;…>        (`Image.convert`)
+  pxs.pconv    <dst> <palette hex: r g b per entry> <transparency: - | i<index> | t<hex>>
+      -> ok <converted pixel of index 0 … 255 as hex, `;` separated ("x": no such entry)>  <pAlpha of index 0 … 255, hex>
   pxs.doc      <src> <w> <h> <band hex;…>
       -> ok <colour mode> <channels> <depth> <stored plane hex;…> <PIL mode:band hex;… | none | !Err> <NumPy bits,…;… | !Err>
+  pxs.docexport <colour mode> <channels> <depth> <w> <h> <mergedTransparency 0/1> <alpha ids> <layer count> <version info -,0,1> <plane hex;…>
+      the exports of a document with the given metadata and stored planes (`depth / 8` big-endian bytes per sample)
+      -> ok <PIL mode:band hex;… | none | !Err> <NumPy bits,…;… | !Err>
   pxs.layer    <src> <doc colour mode> <doc channels> <depth> <top> <left> <w> <h> <band hex;…>
       -> ok <doc pil mode> <ids> <top,left,bottom,right> <stored channel hex;…> <PIL mode:band hex;… | !Err> <alpha hex | none | !Err> <NumPy bits,…;… | !Err>
 -/
@@ -89,6 +94,25 @@ def cmds : List (String × Cmd) := [
         okLine (bandsHex (pil.conv t (imageOf s w h bands)).bands)
       | _, _, _, _, _ => badRequest
     | _ => badRequest),
+  ("pxs.pconv", fun
+    | [t, pal, tr] => match parseMode t, parseHex pal with
+      | some t, some pal =>
+        let entries := (List.range (pal.size / 3)).map fun i =>
+          (pal[3 * i]!.toNat, pal[3 * i + 1]!.toNat, pal[3 * i + 2]!.toNat)
+        let transp : Option PTransparency :=
+          if tr == "-" then some .absent
+          else if tr.startsWith "i" then ((tr.drop 1).toString.toNat?).map PTransparency.index
+          else if tr.startsWith "t" then (parseHex (tr.drop 1).toString).map fun bs => PTransparency.table (bs.toList.map (·.toNat))
+          else none
+        (match transp with
+         | some transp =>
+           let idx := List.range 256
+           okLine (";".intercalate (idx.map fun i => match convPalettePixel entries t i with
+               | some px => toHexList (px.map UInt8.ofNat)
+               | none => "x") ++ "\t" ++ toHexList (idx.map fun i => UInt8.ofNat (pAlpha transp i)))
+         | none => badRequest)
+      | _, _ => badRequest
+    | _ => badRequest),
   ("pxs.doc", fun
     | [s, w, h, bands] => match parseMode s, w.toNat?, h.toNat?, bandsOfHex bands with
       | some s, some w, some h, some bands =>
@@ -101,6 +125,27 @@ def cmds : List (String × Cmd) := [
         okLine (cmodeName mt0.header.cmode ++ "\t" ++ toString mt0.header.channels ++ "\t" ++ toString d ++ "\t" ++
           ";".intercalate (planes.map (storedHex d)) ++ "\t" ++ pilOut ++ "\t" ++ np)
       | _, _, _, _ => badRequest
+    | _ => badRequest),
+  ("pxs.docexport", fun
+    | [c, ch, d, w, h, mt, ids, lc, vi, planes] =>
+      match parseCMode c, ch.toNat?, d.toNat?, w.toNat?, h.toNat?, parseNatList ids, lc.toNat? with
+      | some c, some ch, some d, some w, some h, some ids, some lc =>
+        let mt0 : Meta := {
+          header := { cmode := c, channels := ch, depth := d, width := w, height := h },
+          mergedTransparency := mt == "1", alphaIds := ids, layerCount := lc,
+          versionInfo := if vi == "-" then none else some (vi == "1") }
+        let size := sampleBytes d
+        let parsePlane (s : String) : Option (List Nat) :=
+          (parseHex s).map fun bs => (List.range (bs.size / size)).map fun i =>
+            unbe ((bs.toList.drop (i * size)).take size)
+        (match (if planes == "-" then some [] else (planes.splitOn ";").mapM parsePlane) with
+         | some ps =>
+           let pilOut := exc (exportDocPil px mt0 ps) fun
+             | none => "none"
+             | some i => modeName i.mode ++ ":" ++ bandsHex i.bands
+           okLine (pilOut ++ "\t" ++ exc (exportDocNumpy (npView d) mt0 ps) bitsStr)
+         | none => badRequest)
+      | _, _, _, _, _, _, _ => badRequest
     | _ => badRequest),
   ("pxs.layer", fun
     | [s, c, ch, d, top, left, w, h, bands] =>
